@@ -981,3 +981,212 @@ Proof.
   intros H L. apply (bracketed_threads_exclusive tr None (fun _ => false)); [reflexivity| |exact L].
   intros t. destruct (H t) as [runs ->]. apply thread_log_ok.
 Qed.
+
+(** * What is never touched *)
+Lemma justified_inv o now s0 k : justified o now s0 k = true ->
+  (do_ocsp o = true /\ j_staple now s0 k = true) \/ (do_certs o = true /\ j_cert now (grace o) s0 k = true).
+Proof.
+  unfold justified. destruct (do_ocsp o); destruct (do_certs o); destruct (j_staple now s0 k); auto; discriminate.
+Qed.
+
+Lemma pfx_disjoint k : has_prefix ocsp_pfx k = true -> has_prefix certs_pfx k = true -> False.
+Proof.
+  rewrite !has_prefix_spec. intros [r1 E1] [r2 E2]. rewrite E1 in E2. vm_compute in E2. discriminate.
+Qed.
+
+Lemma trim_suffix_app suf b : trim_suffix suf (b ++ suf) = b.
+Proof.
+  unfold trim_suffix. rewrite rev_app_distr, strip_prefix_app. apply rev_involutive.
+Qed.
+
+Lemma ext_scan_spec r : forall acc e, ext_scan r acc = e -> e <> [] ->
+  exists r1 r2, r = r1 ++ c_dot :: r2 /\ e = c_dot :: rev r1 ++ acc.
+Proof.
+  induction r as [|c r IH]; intros acc e H Hne; cbn [ext_scan] in H; [congruence|].
+  destruct (N.eqb c c_sl); [congruence|].
+  destruct (N.eqb_spec c c_dot) as [->|_].
+  - exists [], r. split; [reflexivity | cbn; congruence].
+  - destruct (IH _ _ H Hne) as [r1 [r2 [-> ->]]]. exists (c :: r1), r2. split; [reflexivity|].
+    cbn [rev]. rewrite <- app_assoc. reflexivity.
+Qed.
+Lemma path_ext_suffix a e : path_ext a = e -> e <> [] -> exists b, a = b ++ e.
+Proof.
+  unfold path_ext. intros H Hne. destruct (ext_scan_spec _ _ _ H Hne) as [r1 [r2 [E ->]]].
+  apply (f_equal (@rev N)) in E. rewrite rev_involutive, rev_app_distr in E. cbn [rev] in E.
+  exists (rev r2). rewrite E, app_nil_r, <- app_assoc. reflexivity.
+Qed.
+
+Definition asset_exts : list str := [spec_ext_crt; spec_ext_key; spec_ext_json].
+(** X.crt / X.key / X.json determine X and the extension *)
+Lemma ext_inj a b s1 s2 : In s1 asset_exts -> In s2 asset_exts -> a ++ s1 = b ++ s2 -> a = b /\ s1 = s2.
+Proof.
+  intros H1 H2 E.
+  assert (S : s1 = s2).
+  { apply (f_equal (@rev N)) in E. rewrite !rev_app_distr in E.
+    cbn in H1, H2. destruct H1 as [<-|[<-|[<-|[]]]]; destruct H2 as [<-|[<-|[<-|[]]]];
+      try reflexivity; cbn in E; discriminate. }
+  subst s2. split; [exact (app_inv_tail _ _ _ E) | reflexivity].
+Qed.
+Lemma ext_nsep s : In s asset_exts -> nsep s = O.
+Proof. cbn. intros [<-|[<-|[<-|[]]]]; reflexivity. Qed.
+
+Lemma site_assetb_nsep a : site_assetb a = true -> nsep a = 3%nat.
+Proof.
+  intros H. apply site_assetb_spec in H. destruct H as [r [-> Hr]]. rewrite nsep_app, Hr. reflexivity.
+Qed.
+
+Lemma covers_nsep x k : covers x k = true -> nsep k = nsep x -> k = x.
+Proof.
+  unfold covers. intros C E. apply orb_true_iff in C. destruct C as [C|C].
+  - apply seqb_eq in C. congruence.
+  - apply under_spec in C. destruct C as [r ->]. rewrite nsep_app in E. cbn in E. lia.
+Qed.
+
+(** the certificate-clause of the justification, inverted for a key X<ext> of a site folder *)
+Lemma j_cert_asset now gr s0 base suf : site_assetb (base ++ spec_ext_crt) = true -> In suf asset_exts ->
+  j_cert now gr s0 (base ++ suf) = true ->
+  match file s0 (base ++ spec_ext_crt) with Some (_, c) => spec_expired now gr c | None => false end = true.
+Proof.
+  intros Hb Hs J. unfold j_cert in J. apply existsb_exists in J. destruct J as [a [_ Ja]].
+  unfold j_cert_by in Ja. destruct (site_assetb a) eqn:Sa; [|discriminate].
+  destruct (seqb (path_ext a) spec_ext_crt) eqn:Ex; [|discriminate].
+  match type of Ja with (if ?b then _ else _) = true => destruct b eqn:B; [|discriminate] end.
+  apply seqb_eq in Ex. destruct (path_ext_suffix _ _ Ex) as [b' Ea]; [discriminate|].
+  subst a. rewrite trim_suffix_app in B.
+  assert (Nk : nsep (base ++ suf) = 3%nat).
+  { pose proof (site_assetb_nsep _ Hb) as H. rewrite nsep_app in *. rewrite (ext_nsep suf Hs).
+    rewrite (ext_nsep spec_ext_crt) in H by (cbn; auto). exact H. }
+  assert (Nb' : nsep b' = 3%nat).
+  { pose proof (site_assetb_nsep _ Sa) as H. rewrite nsep_app, (ext_nsep spec_ext_crt) in H by (cbn; auto). lia. }
+  assert (Hx : exists s', In s' asset_exts /\ covers (b' ++ s') (base ++ suf) = true).
+  { destruct (covers (b' ++ spec_ext_crt) (base ++ suf)) eqn:C1; [exists spec_ext_crt; cbn; auto|].
+    destruct (covers (b' ++ spec_ext_key) (base ++ suf)) eqn:C2; [exists spec_ext_key; cbn; auto|].
+    exists spec_ext_json; cbn; auto. }
+  destruct Hx as [s' [Hs' C]].
+  apply covers_nsep in C; [|rewrite Nk, nsep_app, Nb', (ext_nsep s' Hs'); reflexivity].
+  destruct (ext_inj _ _ _ _ Hs Hs' C) as [-> _]. exact Ja.
+Qed.
+
+Lemma asset_key_prefix base suf : site_assetb (base ++ spec_ext_crt) = true ->
+  has_prefix certs_pfx (base ++ suf) = true.
+Proof.
+  intros Hb. apply has_prefix_app. rewrite <- (trim_suffix_app spec_ext_crt base). exact (asset_base_prefix _ Hb).
+Qed.
+
+Lemma j_staple_prefix now s0 k : j_staple now s0 k = true -> has_prefix ocsp_pfx k = true.
+Proof.
+  unfold j_staple. intros JS. apply existsb_exists in JS. destruct JS as [a [_ Ja]].
+  unfold j_staple_by in Ja. destruct (childb spec_ocsp a) eqn:Ch; [|discriminate].
+  destruct (covers a k) eqn:C; [|discriminate].
+  apply childb_child in Ch. destruct Ch as [c [-> _]].
+  apply (covers_prefix _ (spec_ocsp ++ c_sl :: c)); [|exact C].
+  apply has_prefix_spec. exists c. unfold ocsp_pfx. rewrite <- app_assoc. reflexivity.
+Qed.
+
+Lemma j_cert_prefix now gr s0 k : j_cert now gr s0 k = true -> has_prefix certs_pfx k = true.
+Proof.
+  intros J. unfold j_cert in J. apply existsb_exists in J. destruct J as [a [_ Ja]].
+  unfold j_cert_by in Ja. destruct (site_assetb a) eqn:Sa; [|discriminate].
+  destruct (seqb (path_ext a) spec_ext_crt); [|discriminate].
+  pose proof (asset_base_prefix a Sa) as Hb.
+  apply site_assetb_spec in Sa. destruct Sa as [r [Ea _]].
+  destruct (covers a k) eqn:C1.
+  - apply (covers_prefix _ a); [|exact C1]. apply has_prefix_spec; eauto.
+  - destruct (covers (trim_suffix spec_ext_crt a ++ spec_ext_key) k) eqn:C2.
+    + apply (covers_prefix _ _ _ (has_prefix_app _ _ _ Hb) C2).
+    + destruct (covers (trim_suffix spec_ext_crt a ++ spec_ext_json) k) eqn:C3; [|discriminate].
+      apply (covers_prefix _ _ _ (has_prefix_app _ _ _ Hb) C3).
+Qed.
+
+(** the certificate, key and metadata of a certificate that is not expired for the grace
+    period (or whose X.crt is missing or unparseable) are never removed or altered *)
+Theorem live_assets_untouched e o now s0 base suf :
+  site_assetb (base ++ spec_ext_crt) = true -> In suf asset_exts ->
+  match file s0 (base ++ spec_ext_crt) with Some (_, c) => spec_expired now (grace o) c | None => false end = false ->
+  file (sto (snd (clean e o now s0))) (base ++ suf) = file s0 (base ++ suf).
+Proof.
+  intros Hb Hs Hlive. pose proof (asset_key_prefix base suf Hb) as Hp.
+  destruct (clean_post e o now s0 (base ++ suf)) as [[E|[_ J]]|[E _]].
+  - exact E.
+  - exfalso. apply justified_inv in J. destruct J as [[_ J]|[_ J]].
+    + exact (pfx_disjoint _ (j_staple_prefix _ _ _ J) Hp).
+    + rewrite (j_cert_asset _ _ _ _ _ Hb Hs J) in Hlive. discriminate.
+  - exfalso. rewrite E in Hp. vm_compute in Hp. discriminate.
+Qed.
+
+(** a parseable staple that is not past NextUpdate is never removed or altered *)
+Theorem fresh_staple_untouched e o now s0 k v c : child spec_ocsp k ->
+  file s0 k = Some (v, c) -> spec_stale now c = false ->
+  file (sto (snd (clean e o now s0))) k = file s0 k.
+Proof.
+  intros Hk Hf Hfresh.
+  assert (Hp : has_prefix ocsp_pfx k = true).
+  { destruct Hk as [x [-> _]]. apply has_prefix_spec. exists x. unfold ocsp_pfx. rewrite <- app_assoc. reflexivity. }
+  destruct (clean_post e o now s0 k) as [[E|[_ J]]|[E _]].
+  - exact E.
+  - exfalso. apply justified_inv in J. destruct J as [[_ J]|[_ J]].
+    + unfold j_staple in J. apply existsb_exists in J. destruct J as [a [_ Ja]].
+      unfold j_staple_by in Ja. destruct (childb spec_ocsp a) eqn:Ch; [|discriminate].
+      destruct (covers a k) eqn:C; [|discriminate].
+      apply childb_child in Ch. destruct Ch as [ca [Ea Hca]]. destruct Hk as [ck [Ek Hck]].
+      apply covers_nsep in C.
+      * subst a. rewrite <- C, Hf in Ja. congruence.
+      * subst a k. rewrite !nsep_app. cbn [nsep]. rewrite (nsep_nomem _ Hca), (nsep_nomem _ Hck). reflexivity.
+    + exact (pfx_disjoint _ Hp (j_cert_prefix _ _ _ _ J)).
+  - exfalso. rewrite E in Hp. vm_compute in Hp. discriminate.
+Qed.
+
+(** * The justification, spelled out *)
+Lemma path_ext_crt b : path_ext (b ++ spec_ext_crt) = spec_ext_crt.
+Proof. unfold path_ext. rewrite rev_app_distr. reflexivity. Qed.
+
+(** the boolean [justified] says exactly what the property allows to be deleted *)
+Definition may_delete (o : opts) (now : Z) (s0 : store) (k : key) : Prop :=
+  (do_ocsp o = true /\
+   exists a v c, child spec_ocsp a /\ covers a k = true /\ file s0 a = Some (v, c) /\
+     (as_staple c = None \/ exists nu, as_staple c = Some nu /\ nu < now)) \/
+  (do_certs o = true /\
+   exists base v c na suf, site_assetb (base ++ spec_ext_crt) = true /\
+     file s0 (base ++ spec_ext_crt) = Some (v, c) /\ as_cert c = Some na /\
+     grace o <= now - expires_at na /\ In suf asset_exts /\ covers (base ++ suf) k = true).
+
+Theorem justified_iff o now s0 k : justified o now s0 k = true <-> may_delete o now s0 k.
+Proof.
+  split.
+  - intros J. apply justified_inv in J. destruct J as [[Ho J]|[Ho J]]; [left|right]; split; try exact Ho.
+    + unfold j_staple in J. apply existsb_exists in J. destruct J as [a [_ Ja]]. unfold j_staple_by in Ja.
+      destruct (childb spec_ocsp a) eqn:Ch; [|discriminate]. destruct (covers a k) eqn:C; [|discriminate].
+      destruct (file s0 a) as [[v c]|] eqn:F; [|discriminate].
+      exists a, v, c. split; [apply childb_child; exact Ch|]. split; [exact C|]. split; [exact F|].
+      unfold spec_stale in Ja. destruct (as_staple c) as [nu|]; [right; exists nu; split; [reflexivity|lia] | left; reflexivity].
+    + unfold j_cert in J. apply existsb_exists in J. destruct J as [a [_ Ja]]. unfold j_cert_by in Ja.
+      destruct (site_assetb a) eqn:Sa; [|discriminate].
+      destruct (seqb (path_ext a) spec_ext_crt) eqn:Ex; [|discriminate].
+      match type of Ja with (if ?b then _ else _) = true => destruct b eqn:B; [|discriminate] end.
+      apply seqb_eq in Ex. destruct (path_ext_suffix _ _ Ex) as [b' Ea]; [discriminate|]. subst a.
+      rewrite trim_suffix_app in B.
+      destruct (file s0 (b' ++ spec_ext_crt)) as [[v c]|] eqn:F; [|discriminate].
+      unfold spec_expired in Ja. destruct (as_cert c) as [na|] eqn:Ac; [|discriminate].
+      assert (Hx : exists s', In s' asset_exts /\ covers (b' ++ s') k = true).
+      { destruct (covers (b' ++ spec_ext_crt) k) eqn:C1; [exists spec_ext_crt; cbn; auto|].
+        destruct (covers (b' ++ spec_ext_key) k) eqn:C2; [exists spec_ext_key; cbn; auto|].
+        exists spec_ext_json; cbn; auto. }
+      destruct Hx as [s' [Hs' C]].
+      exists b', v, c, na, s'. apply Z.leb_le in Ja. repeat split; assumption.
+  - intros [[Ho (a & v & c & Ha & C & F & Hst)]|[Ho (base & v & c & na & suf & Sa & F & Ac & Hg & Hs & C)]].
+    + apply (staple_justifies o now s0 a v c Ho Ha F); [|exact C].
+      unfold spec_stale. destruct Hst as [->|[nu [-> Hnu]]]; [reflexivity | apply Z.ltb_lt; exact Hnu].
+    + apply (cert_justifies o now s0 (base ++ spec_ext_crt) v c (base ++ suf) Ho Sa); try assumption.
+      * rewrite path_ext_crt. apply seqb_refl.
+      * unfold spec_expired. rewrite Ac. apply Z.leb_le. exact Hg.
+      * rewrite trim_suffix_app. cbn in Hs. destruct Hs as [<-|[<-|[<-|[]]]]; cbn; auto.
+Qed.
+
+(** keys outside ocsp/ and certificates/ (account data under acme/, locks, anything else) *)
+Theorem foreign_keys_untouched e o now s0 k :
+  has_prefix ocsp_pfx k = false -> has_prefix certs_pfx k = false -> k <> spec_last_clean ->
+  file (sto (snd (clean e o now s0))) k = file s0 k.
+Proof.
+  intros H1 H2 H3. destruct (clean_post e o now s0 k) as [[E|[_ J]]|[E _]]; [exact E| |contradiction].
+  apply justified_in_namespace in J. destruct J as [J|J]; congruence.
+Qed.
